@@ -1,6 +1,7 @@
 SPECIFICATION Spec
 CONSTANTS
-  Origins = {"indep"}
+  Origins = {"writer"}
   MaxLevel = 31
+  Skip = {}
 INVARIANT InvTrue
 CHECK_DEADLOCK FALSE
